@@ -416,11 +416,9 @@ func replayOnce(o *Obligation, repo, dir string, attempt int) *replayResult {
 		return res
 	}
 	isPanicKind := panicKinds[o.Kind]
-	if o.Kind == "requires" {
-		// only preconditions of library functions (they panic); a violated precondition of a contracted function is not a fault by itself
-		if !strings.Contains(o.Name, "requires[Int") && !strings.Contains(o.Name, "requires[(*math/rand") {
-			isPanicKind = false
-		}
+	if o.Kind == "requires" && !o.LibPre {
+		// a violated precondition of a contracted function of this repository is not a fault by itself
+		isPanicKind = false
 	}
 	var clause ast.Expr
 	if o.Kind == "ensures" {
